@@ -159,7 +159,7 @@ func (a *ownAnalysis) isRoot(fn *ssa.Function, called map[*ssa.Function]bool) bo
 }
 
 func (w *World) ownershipObligations() []*Obligation {
-	if len(w.db.Owners) == 0 {
+	if len(w.db.Owners) == 0 && len(w.db.CallHolds) == 0 {
 		return nil
 	}
 	a := &ownAnalysis{w: w, entry: map[*ssa.Function]lockset{}, at: map[ssa.Instruction]lockset{}, foreign: map[*ssa.Function]string{}}
@@ -336,6 +336,53 @@ func (w *World) ownershipObligations() []*Obligation {
 				}
 				obls = append(obls, o)
 			}
+		}
+	}
+	// call sites that must lie inside a critical section
+	for _, ch := range w.db.CallHolds {
+		fn := w.funcs[ch.Func]
+		found := 0
+		if fn != nil {
+			for _, b := range fn.Blocks {
+				for _, in := range b.Instrs {
+					call, ok := in.(*ssa.Call)
+					if !ok {
+						continue
+					}
+					name := ""
+					if call.Call.IsInvoke() {
+						name = call.Call.Method.FullName()
+					} else if sf := call.Call.StaticCallee(); sf != nil {
+						name = sf.String()
+					}
+					// "(pkg/path.Type).Method" -> "Type.Method"
+					short := name
+					if i := strings.LastIndex(short, "/"); i >= 0 {
+						short = short[i+1:]
+					}
+					if i := strings.Index(short, "."); i >= 0 && strings.HasPrefix(name, "(") {
+						short = short[i+1:]
+					}
+					short = strings.NewReplacer("(", "", ")", "", "*", "").Replace(short)
+					if short != ch.Callee {
+						continue
+					}
+					found++
+					o := &Obligation{Name: fmt.Sprintf("%s/holds:%s@%s#%d", ch.Func, ch.Guard, ch.Callee, found), Func: ch.Func, Kind: "own", Props: []string{"C20"},
+						Src: fmt.Sprintf("call of %s inside a critical section of %s", ch.Callee, ch.Guard), Solver: "ownership-dataflow", Pos: w.fset.Position(call.Pos())}
+					if a.at[in][ch.Guard] {
+						o.Status = "unsat"
+					} else {
+						o.Status = "sat"
+						o.Output = fmt.Sprintf("must-hold lockset at this call is %s; %s is required (the check of the shared state and the call would not be atomic)", a.at[in], ch.Guard)
+					}
+					obls = append(obls, o)
+				}
+			}
+		}
+		if found == 0 {
+			obls = append(obls, &Obligation{Name: fmt.Sprintf("%s/holds:%s@%s/call-site-exists", ch.Func, ch.Guard, ch.Callee), Func: ch.Func, Kind: "own", Props: []string{"C20"},
+				Src: "the declared call site exists", Status: "sat", Solver: "ownership-dataflow", Output: "no such call in that function (renamed or moved?)"})
 		}
 	}
 	// a declaration that matches no access at all would be vacuous: fail closed
